@@ -94,12 +94,66 @@ def _nth_concat_lemmas(es, limit=24):
     return out
 
 
+def _member_atoms(es, limit=8):
+    """ground atoms  seq.contains(S, seq.unit(e))"""
+    out, seen = [], set()
+    todo = list(es)
+    visited = set()
+    while todo and len(out) < limit:
+        x = todo.pop()
+        if z3.is_quantifier(x):
+            continue
+        i = x.get_id()
+        if i in visited:
+            continue
+        visited.add(i)
+        if z3.is_app(x):
+            if x.decl().kind() == z3.Z3_OP_SEQ_CONTAINS and z3.is_app(x.arg(1)) and x.arg(1).decl().kind() == z3.Z3_OP_SEQ_UNIT \
+                    and not _has_var(x) and i not in seen:
+                seen.add(i)
+                out.append(x)
+            todo.extend(x.children())
+    return out
+
+
+def _membership(es, hyps, rounds=2):
+    """(1) a member has a position: contains(S, unit(e)) => 0 <= w < |S| and S[w] = e for a fresh constant w (skolemised
+    existential, a conservative extension); (2) hypotheses quantified over an element are instantiated at the elements whose
+    membership is in question.  -> (extra facts, witness index terms)"""
+    extra, wits = [], []
+    done_atoms, done_inst = set(), set()
+    pool = list(es)
+    for _ in range(rounds):
+        atoms = [a for a in _member_atoms(pool) if a.get_id() not in done_atoms]
+        if not atoms:
+            break
+        new = []
+        for a in atoms:
+            done_atoms.add(a.get_id())
+            S, e = a.arg(0), a.arg(1).arg(0)
+            w = z3.Int(f'mw!{next(_cnt)}')
+            wits.append(w)
+            new.append(z3.Implies(a, z3.And(w >= 0, w < z3.Length(S), S[w] == e)))
+            for h in hyps:
+                if z3.is_quantifier(h) and h.is_forall() and h.num_vars() == 1 and h.var_sort(0) == e.sort():
+                    key = (h.get_id(), e.get_id())
+                    if key not in done_inst:
+                        done_inst.add(key)
+                        new.append(z3.substitute_vars(h.body(), e))
+        extra.extend(new)
+        pool = new
+    return extra, wits
+
+
 def strengthen(hyps, goal, max_inst=200):
     goal2, sks = _skolem(goal)
     terms = [s for s in sks if s.sort() == z3.IntSort()]
     terms += [t for t in _index_terms([goal2] + [h for h in hyps if not z3.is_quantifier(h)]) if all(not z3.eq(t, u) for u in terms)]
     extra = []
     extra.extend(_nth_concat_lemmas([goal2] + [h for h in hyps if not z3.is_quantifier(h)]))
+    mem, wits = _membership([goal2] + [h for h in hyps if not z3.is_quantifier(h)], hyps)
+    extra.extend(mem)
+    terms += wits
     if terms:
         for h in hyps:
             if len(extra) >= max_inst:
@@ -124,5 +178,21 @@ def strengthen(hyps, goal, max_inst=200):
             if z3.is_quantifier(h) and h.is_forall() and h.num_vars() == 1 and h.var_sort(0) == z3.IntSort():
                 for t in terms2[:6]:
                     extra.append(z3.substitute_vars(h.body(), t))
+    # memberships that only appear in the instances (e.g. `L2[sk] in L1` from a subset hypothesis at the goal's index)
+    mem2, wits2 = _membership(extra, hyps, rounds=2)
+    extra.extend(mem2)
+    if wits2:
+        for h in hyps:
+            if len(extra) >= max_inst + 100:
+                break
+            if z3.is_quantifier(h) and h.is_forall() and h.num_vars() == 1 and h.var_sort(0) == z3.IntSort():
+                for t in wits2[:6]:
+                    inst = z3.substitute_vars(h.body(), t)
+                    extra.append(inst)
+                    inner = inst.arg(1) if z3.is_implies(inst) else inst
+                    if z3.is_quantifier(inner) and inner.is_forall() and inner.num_vars() == 1 and inner.var_sort(0) == z3.IntSort():
+                        for u in (terms + wits2)[:10]:
+                            b2 = z3.substitute_vars(inner.body(), u)
+                            extra.append(z3.Implies(inst.arg(0), b2) if z3.is_implies(inst) else b2)
     extra.extend(_nth_concat_lemmas(extra))
     return extra, goal2
